@@ -5,5 +5,5 @@ CONSTANTS
   EmitOn = FALSE
 SPECIFICATION Spec
 VIEW view
-INVARIANTS PruneSafe Shape Complete FindExact RoundTrip
+INVARIANTS BigOverlapLemma PruneSafe Shape Complete FindExact RoundTrip
 CHECK_DEADLOCK FALSE
